@@ -39,6 +39,39 @@ class Const:
         self.v = v
 
 
+class NatExpr:
+    """affine index expression  c + Σ k_v · v  over Nat-valued loop variables of folded loops"""
+    def __init__(self, coeffs, const=0):
+        self.coeffs = dict((k, v) for k, v in coeffs.items() if v != 0)
+        self.const = const
+
+    @staticmethod
+    def lift(x):
+        if isinstance(x, NatExpr):
+            return x
+        return NatExpr({}, x.v)
+
+    def add(self, o, sign=1):
+        c = dict(self.coeffs)
+        for k, v in o.coeffs.items():
+            c[k] = c.get(k, 0) + sign * v
+        return NatExpr(c, self.const + sign * o.const)
+
+    def scale(self, k):
+        return NatExpr(dict((v, c * k) for v, c in self.coeffs.items()), self.const * k)
+
+    @property
+    def t(self):
+        if self.const < 0 or any(v < 0 for v in self.coeffs.values()):
+            raise Unsupported({"kind": "index"}, "index expression with a negative coefficient")
+        parts = ["%d * %s" % (v, k) if v != 1 else k for k, v in sorted(self.coeffs.items())]
+        if self.const or not parts:
+            parts.append(str(self.const))
+        if len(parts) > 1 or " " in parts[0]:
+            return "(" + " + ".join(parts) + ")"
+        return parts[0]
+
+
 # ---------------------------------------------------------------- types
 
 def strip_cv(t):
@@ -299,8 +332,10 @@ class Translator:
         if m:
             ln = int(m.group(1))
             cls = mn[m.end():m.end() + ln]
-        pre = {"Goldilocks": "", "Goldilocks3": "G3_"}.get(cls, cls + "_" if cls else "")
-        lname = "c_" + pre + lean_ident(var_def["name"])
+        pre = {"Goldilocks": "", "Goldilocks3": "G3_", "PoseidonGoldilocksConstants": "Pos_"}.get(cls, cls + "_" if cls else "")
+        if var_def.get("_namespace") == "PoseidonGoldilocksConstants":
+            pre = "Pos_"
+        lname = "c_" + pre + re.sub(r"[^A-Za-z0-9_]", "_", var_def["name"])
         cat, ex = classify(var_def["type"]["qualType"])
         init = [c for c in var_def.get("inner", []) if "kind" in c]
         if not init:
@@ -352,11 +387,15 @@ class FnCtx:
     def show(self, t):
         if isinstance(t, Const):
             return str(t.v)
+        if isinstance(t, NatExpr):
+            return t.t
         return t
 
     def as_u64(self, t):
         if isinstance(t, Const):
             return "%d#64" % (t.v % (1 << 64))
+        if isinstance(t, NatExpr):
+            return "(BitVec.ofNat 64 %s)" % t.t
         return t
 
     def as_nat(self, t, node):
@@ -365,6 +404,8 @@ class FnCtx:
             if t.v < 0:
                 raise Unsupported(node, "negative index")
             return str(t.v)
+        if isinstance(t, NatExpr):
+            return t.t
         return "(%s).toNat" % t
 
     def fresh(self, base="t"):
@@ -403,6 +444,14 @@ class FnCtx:
             return Const(int(n["value"]))
         if k == "CXXBoolLiteralExpr":
             return "true" if n["value"] else "false"
+        if k == "UnaryExprOrTypeTraitExpr" and n.get("name") == "sizeof":
+            at = n.get("argType", {}).get("qualType") or (qt(n["inner"][0]) if n.get("inner") else "")
+            c = classify(at)
+            if c[0] == "u64":
+                return Const(8)
+            if c[0] == "arr" and c[1][1]:
+                return Const(8 * self.array_total(at))
+            raise Unsupported(n, "sizeof(%s)" % at)
         if k in ("ImplicitCastExpr", "CStyleCastExpr", "CXXStaticCastExpr", "CXXFunctionalCastExpr",
                  "CXXReinterpretCastExpr"):
             ck = n.get("castKind")
@@ -411,6 +460,8 @@ class FnCtx:
                 v = self.ex(inner)
                 src = classify(qt(inner))
                 dst = classify(qt(n))
+                if isinstance(v, NatExpr):
+                    return v
                 if isinstance(v, Const):
                     if dst[0] == "u64":
                         return Const(v.v % (1 << 64))
@@ -442,6 +493,20 @@ class FnCtx:
             raise Unsupported(n, "member " + str(n.get("name")))
         if k == "ArraySubscriptExpr":
             base, idx = n["inner"][0], n["inner"][1]
+            b0 = self.skip(base)
+            if b0.get("kind") == "ArraySubscriptExpr":
+                # m[j][i] on a two-dimensional array: flat index j * ncols + i
+                rowt = qt(b0)
+                mm = re.search(r"\[(\d+)\]\s*$", rowt.replace("const", "").strip())
+                if not mm:
+                    raise Unsupported(n, "2-D subscript on " + rowt)
+                ncols = int(mm.group(1))
+                bb = self.region(b0["inner"][0])
+                j = self.ex(b0["inner"][1])
+                i = self.ex(idx)
+                if isinstance(j, Const) and isinstance(i, Const):
+                    return "(%s %d)" % (bb, j.v * ncols + i.v)
+                return "(%s (%s * %d + %s))" % (bb, self.as_nat(j, b0), ncols, self.as_nat(i, idx))
             b = self.region(base)
             i = self.as_nat(self.ex(idx), idx)
             return "(%s %s)" % (b, i)
@@ -490,6 +555,8 @@ class FnCtx:
             e = self.env[rid]
             if e.get("const") is not None:
                 return e["const"]
+            if e.get("nat") is not None:
+                return NatExpr({e["nat"]: 1})
             return e["name"]
         kind = rd.get("kind")
         if kind == "VarDecl":
@@ -557,6 +624,17 @@ class FnCtx:
         if ca == "ptr" or classify(qt(b))[0] == "ptr":
             raise Unsupported(n, "pointer arithmetic in value context")
         x, y = self.ex(a), self.ex(b)
+        if (isinstance(x, NatExpr) or isinstance(y, NatExpr)) and (isinstance(x, (NatExpr, Const)) and isinstance(y, (NatExpr, Const))):
+            X, Y = NatExpr.lift(x), NatExpr.lift(y)
+            if op == "+":
+                return X.add(Y)
+            if op == "-":
+                return X.add(Y, -1)
+            if op == "*" and not Y.coeffs:
+                return X.scale(Y.const)
+            if op == "*" and not X.coeffs:
+                return Y.scale(X.const)
+            raise Unsupported(n, "operator %s on a symbolic loop index" % op)
         if isinstance(x, Const) and isinstance(y, Const):
             bits = 64 if (ca == "u64" or classify(qt(b))[0] == "u64") else None
             f = {"+": lambda p, q: p + q, "-": lambda p, q: p - q, "*": lambda p, q: p * q,
@@ -727,6 +805,8 @@ class FnCtx:
             if inner.get("kind") == "ArraySubscriptExpr":
                 bt, bw = self.lvalue_region(inner["inner"][0])
                 i = self.as_nat(self.ex(inner["inner"][1]), inner)
+                if i == "0":
+                    return bt, bw
                 return "(Region.shift %s %s)" % (bt, i), (lambda new: bw("(Region.unshift %s %s %s)" % (bt, i, new)))
             if inner.get("kind") == "MemberExpr" and inner.get("name") == "fe":
                 return self.lvalue_region({"kind": "UnaryOperator", "opcode": "&", "inner": [inner["inner"][0]]})
@@ -743,6 +823,21 @@ class FnCtx:
         rd = self.callee(n)
         name = rd["name"]
         args = n["inner"][1:]
+        if name in ("memcpy", "memset"):
+            nbytes = self.ex(args[2])
+            if not isinstance(nbytes, Const) or nbytes.v % 8 != 0:
+                raise Unsupported(n, "%s with a non-constant or unaligned byte count" % name)
+            cnt = nbytes.v // 8
+            bt, bw = self.lvalue_region(args[0])
+            if name == "memcpy":
+                src = self.region(args[1])
+                bw("(Region.copyN %s %s %d)" % (bt, src, cnt))
+            else:
+                v = self.ex(args[1])
+                if not (isinstance(v, Const) and v.v == 0):
+                    raise Unsupported(n, "memset with a non-zero fill")
+                bw("(Region.zeroN %s %d)" % (bt, cnt))
+            return None
         if name in INTRIN:
             lname, kinds = INTRIN[name]
             if "M" in kinds:
@@ -977,7 +1072,11 @@ class FnCtx:
         if n.get("kind") != "InitListExpr":
             raise Unsupported(n, "expected initialiser list")
         out = []
-        for c in n.get("inner", []):
+        children = n.get("inner", [])
+        if "array_filler" in n:
+            # clang's JSON quirk: array_filler = [filler expression, explicit initialisers...]; the tail is value-initialised
+            children = n["array_filler"][1:]
+        for c in children:
             c0 = self.skip(c)
             if c0.get("kind") == "InitListExpr" and classify(qt(c0))[0] == "arr":
                 out.extend(self.init_list(c0))
@@ -986,8 +1085,6 @@ class FnCtx:
             else:
                 out.append(self.ex(c))
         cat, ex = classify(qt(n))
-        if "array_filler" in n:
-            pass
         if cat == "arr" and ex[1] is not None:
             # total number of scalar elements for (possibly nested) arrays
             total = self.array_total(qt(n))
@@ -1044,7 +1141,11 @@ class FnCtx:
                 try:
                     rd = self.callee(x)
                     args = x["inner"][1:]
-                    if rd["name"] in INTRIN:
+                    if rd["name"] in ("memcpy", "memset"):
+                        r = base_var(args[0])
+                        if r:
+                            note(r)
+                    elif rd["name"] in INTRIN:
                         if "M" in INTRIN[rd["name"]][1]:
                             r = base_var(args[0])
                             if r:
@@ -1186,24 +1287,49 @@ class FnCtx:
             if c0["opcode"] != "<":
                 raise Unsupported(n, "symbolic for bound with <=/!=")
             hi_term = self.as_nat(hi, c0)
-        # fold
+        # fold: the loop body is LIFTED to an auxiliary top-level definition (an inline lambda returning a Region is
+        # eta-expanded by Lean's compiler, which re-runs the body on every element read: exponential run time)
         self.env[ivid] = {"name": name, "cat": "nat", "const": None}
         vs = self.assigned_vars(body_stmts)
         vs = [r for r in vs if r != ivid]
         names = [self.env[r]["name"] for r in vs]
+        cats = [self.env[r]["cat"] for r in vs]
         if not names:
             self.env.pop(ivid, None)
             return
-        tup = names[0] if len(names) == 1 else "(" + ", ".join(names) + ")"
-        # the loop variable is a Nat inside the body; u64 uses need conversion: mark as natvar
-        self.env[ivid] = {"name": "(BitVec.ofNat 64 %s)" % name, "cat": "u64", "const": None, "nat": name}
+        self.env[ivid] = {"name": name, "cat": "nat", "const": None, "nat": name}
+        outer_env = dict(self.env)
         bl, br = self.run_block(body_stmts)
         if br is not None:
             raise Unsupported(n, "return in loop")
-        ind = "  " * self.indent
-        self.emit("let %s := Loop.range %d %s %d %s (fun %s %s =>" % (tup, lo.v, hi_term, step, tup, name, tup))
-        self.lines.extend(bl)
-        self.lines.append(ind + "    " + tup + ")")
+        self.loopn = getattr(self, "loopn", 0) + 1
+        aux = "%s_loop%d" % (self.fn_lean_name_for_aux, self.loopn)
+        body_text = "\n".join(bl)
+        # captured variables: every variable of the enclosing scope mentioned in the body, except state and index
+        caps = []
+        for rid, e in outer_env.items():
+            nm = e["name"]
+            if rid == ivid or nm in names or e.get("const") is not None or e["cat"] in ("nat",):
+                continue
+            if re.search(r"(?<![A-Za-z0-9_'.])%s(?![A-Za-z0-9_'])" % re.escape(nm), body_text) and nm not in [c[0] for c in caps]:
+                caps.append((nm, e["cat"]))
+        sty = " × ".join(LEAN_TY[c] for c in cats)
+        def proj(i, n_, v):
+            return v + ".2" * i + (".1" if i < n_ - 1 else "") if n_ > 1 else v
+        lines = ["def %s%s (%s : Nat) (st__ : %s) : %s :=" % (
+            aux, "".join(" (%s : %s)" % (c, LEAN_TY[t]) for c, t in caps), name, sty, sty)]
+        for i, nm in enumerate(names):
+            lines.append("  let %s := %s" % (nm, proj(i, len(names), "st__")))
+        # re-indent the body to two spaces
+        for l in bl:
+            lines.append("  " + l.lstrip() if not l.startswith("  " * (self.indent + 3)) else "  " + l[2 * (self.indent + 2) - 2:])
+        lines.append("  " + (names[0] if len(names) == 1 else "(" + ", ".join(names) + ")"))
+        self.aux_defs = getattr(self, "aux_defs", []) + ["\n".join(lines)]
+        tup = names[0] if len(names) == 1 else "(" + ", ".join(names) + ")"
+        stv = self.fresh("st")
+        self.emit("let %s := Loop.range %d %s %d %s (%s%s)" % (stv, lo.v, hi_term, step, tup, aux, "".join(" " + c for c, _ in caps)))
+        for i, nm in enumerate(names):
+            self.emit("let %s := %s" % (nm, proj(i, len(names), stv)))
         self.env.pop(ivid, None)
 
     # ---- asm
@@ -1217,6 +1343,7 @@ class FnCtx:
         info.decl = d
         info.alias = alias
         info.lean_name = self.tr.fn_lean_name(d) + ("".join("_al_%s_%s" % (a, b) for a, b in alias) if alias else "")
+        self.fn_lean_name_for_aux = info.lean_name
         fty = d["type"]["qualType"]
         rett = fty.split("(")[0].strip()
         rc = classify(rett)[0]
@@ -1308,6 +1435,8 @@ class FnCtx:
         sig = "".join(" (%s : %s)" % (p["name"], LEAN_TY[p["cat"]]) for p in info.params if p["mode"] not in ("out", "merged"))
         src = "%s::%s  %s" % (d.get("_class"), d["name"], fty)
         text = "/-- `%s` -/\ndef %s%s : %s :=\n%s" % (src, info.lean_name, sig, rty, "\n".join(self.lines))
+        if getattr(self, "aux_defs", None):
+            text = "\n\n".join(self.aux_defs) + "\n\n" + text
         info.text = text
         return info
 
